@@ -96,6 +96,17 @@ Goto(l, s, st) ==
   ELSE GotoKids(l, Kids(l), 1, s, st)
 
 (* ---- walk ---- *)
+(* the loop instance being left (the walk started at its first segment) holds nothing after that segment: every other
+   child at or after the start position that is required and has not occurred is recorded missing *)
+RECURSIVE MissRest(_, _, _, _, _)
+MissRest(kids, i, skip, s, st) ==
+  IF i > Len(kids) THEN st
+  ELSE LET c == kids[i] IN
+    IF i = skip THEN MissRest(kids, i + 1, skip, s, st)
+    ELSE IF IsLoop(c) THEN MissRest(kids, i + 1, skip, s, LoopMatch(c, s, st).st)
+    ELSE IF N[c].usage = "R" /\ Get(st.cnt, PathOf(c)) < 1
+         THEN MissRest(kids, i + 1, skip, s, [st EXCEPT !.missing = Append(@, [node |-> c, kind |-> "seg"])])
+         ELSE MissRest(kids, i + 1, skip, s, st)
 RECURSIVE Level(_, _, _, _, _, _), Scan(_, _, _, _, _, _, _)
 Scan(node, kids, i, s, st, pops, origloop) ==
   IF i > Len(kids) THEN [found |-> FALSE, st |-> st]
@@ -104,7 +115,7 @@ Scan(node, kids, i, s, st, pops, origloop) ==
       IF SegMatch(c, s) THEN
         LET lm == IF IsLoop(node) THEN LoopMatch(node, s, st) ELSE [m |-> FALSE, st |-> st] IN
         IF lm.m THEN
-          LET g == Goto(node, s, lm.st) IN
+          LET g == Goto(node, s, IF lm.st.fromseg THEN MissRest(kids, 1, i, s, lm.st) ELSE lm.st) IN
             IF NodeEq(node, origloop)
             THEN [found |-> TRUE, res |-> g.node, pops |-> <<node>>, pushes |-> <<node>>, st |-> g.st]
             ELSE [found |-> TRUE, res |-> g.node, pops |-> pops, pushes |-> g.push, st |-> g.st]
@@ -135,7 +146,7 @@ Level(node, nodepos, s, st, pops, origloop) ==
 
 Walk(start, s, cnt) ==
   LET loop0 == IF IsLoop(start) \/ start = 0 THEN start ELSE Parent(start)
-      st0 == [cnt |-> cnt, missing |-> <<>>, errs |-> <<>>]
+      st0 == [cnt |-> cnt, missing |-> <<>>, errs |-> <<>>, fromseg |-> (start # 0 /\ IsSeg(start))]
   IN Level(loop0, Pos(start), s, st0, <<>>, loop0)
 
 
